@@ -221,6 +221,13 @@ impl<'a> Tape<'a> {
     pub fn key(&self) -> u64 {
         self.h.0
     }
+    /// the raw tape words (for forwarding a case to another process)
+    pub fn snapshot(&self) -> Vec<u64> {
+        self.w.to_vec()
+    }
+    pub fn is_exact(&self) -> bool {
+        self.exact
+    }
     pub fn consumed(&self) -> usize {
         self.pos
     }
